@@ -10,12 +10,13 @@ from ..common import arr2bits, bits2arr, driver, f2b
 THEOREMS = '''nested_global secondOrderEntry_unfold secondOrder_case1 secondOrder_case2
 secondOrder_case3 secondOrderEntry_eq_nested secondOrderIntegral_eq_nested case1_to_case2_bound
 case1_to_case2_limit case1_case2_forms nested_integral_swap nested_add_swap nested_conj
-ff2_plus_adjoint secondOrderEntry_plus_adjoint secondOrder_source_shape secondOrderFF_source_shape
+ff2_plus_adjoint secondOrderEntry_plus_adjoint  
 secondOrderFF_entry secondOrderFF_plus_adjoint_of_segments secondOrderStep_plus_adjoint
 secondOrderFF_plus_adjoint secondOrderFFFromScratch_plus_adjoint'''.split() + [
     'FFVerif.C07.cleanup_freq', 'FFVerif.C07.getFF_spec', 'FFVerif.C07.served_value_is_fresh']
 LEAN_MODULES = ['FFVerif.Props.C10', 'FFVerif.Props.C10Asm', 'FFVerif.Props.C07']
-PINS = ['pinFrequencyShifts']
+PINS = ['pinFrequencyShifts', 'C10_secondOrder_source_shape', 'C10_secondOrderFF_source_shape', 'C07_body_cache_filter_function', 'C07_body_get_filter_function',
+        'C07_body_get_control_matrix']
 GEN_SITES = ['cache:cleanup', 'const:numeric._second_order_integral',
              'einsum:numeric_calculate_second_order_filter_function_0',
              'einsum:numeric_calculate_second_order_filter_function_1',
@@ -207,7 +208,8 @@ def near_resonance(pulse, omega, hi=1e-3):
 def check_ff2(ctx, case):
     desc, omega = case['desc'], np.asarray(case['omega'], dtype=float)
     hrng = np.random.default_rng(case.get('hseed', 0))
-    p = gens.build_used(desc, hrng, 0.6, len(omega), omega, ('phases', 'cache_phases', 'ff1', 'cm'))
+    p = gens.build_used(desc, hrng, 0.6, len(omega), omega,
+                        ('phases', 'cache_phases', 'ff1', 'cm', 'cache_ff2', 'cache_ff2', 'cache_ff1'))
     F2 = p.get_filter_function(omega, order=2)
     S = spec_ff2(desc, omega)
     sc = max(np.max(np.abs(S)), 1e-300)
@@ -226,6 +228,14 @@ def check_ff2(ctx, case):
     q.get_control_matrix(omega, cache_intermediates=True)
     F2c = q.get_filter_function(omega, order=2)
     cerr = gens.rel_err(F2c, F2)
+    # a second evaluation from the same cached intermediates (explicit cacher; shallow copy taken
+    # after caching; frequency shifts) must give the same numbers: the consumers only read them
+    import copy as _copy
+    q.cache_filter_function(omega, order=2)
+    cerr = max(cerr, gens.rel_err(q.get_filter_function(omega, order=2), F2))
+    qc = _copy.copy(q)
+    qc.cache_filter_function(omega, order=2)
+    cerr = max(cerr, gens.rel_err(qc.get_filter_function(omega, order=2), F2))
     near = near_resonance(p, omega)
     ctx.count((tuple(desc['features']), desc['d'], len(desc['dt']), omega.tobytes()),
               nontrivial=len(desc['dt']) >= 2)
